@@ -30,6 +30,8 @@ def run_property(prop: str, tier: str, root: str, seed: int, evidence_dir=None, 
         ctx.prog = prog
         mod = importlib.import_module(f"sa.rules.{prop.lower()}")
         mod.check(ctx)
+        from .rules.purity import argument_purity
+        ctx.guard(argument_purity, ctx)
     except AnalysisError as e:
         err = str(e)
     except Exception as e:  # analyser crash: never report as a violation
